@@ -2,6 +2,7 @@
 package c16
 
 import (
+	"encoding/json"
 	"fmt"
 	"sort"
 	"strings"
@@ -19,6 +20,7 @@ type Case struct {
 	Upper     []wm.FeatureS `json:"upper"`
 	BaseKind  string        `json:"base_kind"`  // basic, compact, mutable
 	UpperKind string        `json:"upper_kind"` // basic, compact, mutable, mutable-overlay (a MutableOverlayWorld over the base with the upper features added)
+	ViaTags   bool          `json:"via_tags,omitempty"` // mutable-overlay only: versions that differ from the base feature only in tags are made with RemoveTag and AddTag instead of AddFeature
 }
 
 var keys = []string{"name", "#amenity", "#highway", "@wikidata"}
@@ -36,12 +38,13 @@ func genTags(t *rapid.T, label string) []wm.TagS {
 
 func gen(t *rapid.T) Case {
 	c := Case{
-		Base: wm.GenSet(t, wm.GenConfig{MaxPoints: 5, MaxPaths: 3, MaxLoops: 1, MaxAreas: 1, MaxRelations: 2,
+		Base: wm.GenSet(t, wm.GenConfig{MaxPoints: 5, MaxPaths: 3, MaxLoops: 2, MaxAreas: 2, MaxRelations: 2,
 			Namespaces: []string{string(b6.NamespaceOSMNode), string(b6.NamespaceOSMWay), string(b6.NamespaceOSMRelation)},
 			TagKeys:    keys, TagValues: values}),
 		BaseKind:  rapid.SampledFrom([]string{"basic", "basic", "mutable", "compact"}).Draw(t, "basekind"),
 		UpperKind: rapid.SampledFrom([]string{"basic", "basic", "mutable", "mutable-overlay", "mutable-overlay", "compact"}).Draw(t, "upperkind"),
 	}
+	c.ViaTags = c.UpperKind == "mutable-overlay" && rapid.Bool().Draw(t, "viatags")
 	used := map[b6.FeatureID]bool{}
 	add := func(f wm.FeatureS) {
 		if !used[f.ID.ID()] {
@@ -53,6 +56,12 @@ func gen(t *rapid.T) Case {
 	for _, f := range c.Base.Features {
 		byID[f.ID.ID()] = f
 	}
+	var baseAreas []int
+	for i, f := range c.Base.Features {
+		if f.ID.ID().Type == b6.FeatureTypeArea {
+			baseAreas = append(baseAreas, i)
+		}
+	}
 	n := rapid.IntRange(1, 6).Draw(t, "nupper")
 	for i := 0; i < n; i++ {
 		switch rapid.IntRange(0, 3).Draw(t, "upperclass") {
@@ -61,6 +70,9 @@ func gen(t *rapid.T) Case {
 			add(wm.FeatureS{ID: wm.FID{T: 0, NS: rapid.SampledFrom([]string{string(b6.NamespaceOSMNode), "diagonal.works/ns/other"}).Draw(t, "ns"), V: uint64(700 + i)}, Point: &ll, Tags: genTags(t, "newtags")})
 		default: // another version of a base feature
 			f := c.Base.Features[rapid.IntRange(0, len(c.Base.Features)-1).Draw(t, "shadowed")].Clone()
+			if len(baseAreas) > 0 && rapid.IntRange(0, 2).Draw(t, "preferarea") == 0 {
+				f = c.Base.Features[rapid.SampledFrom(baseAreas).Draw(t, "shadowedarea")].Clone()
+			}
 			switch f.ID.ID().Type {
 			case b6.FeatureTypePoint:
 				f.Tags = genTags(t, "shadowtags")
@@ -73,6 +85,45 @@ func gen(t *rapid.T) Case {
 				f.Tags = genTags(t, "shadowtags")
 				f.Members = nil
 				add(f)
+			case b6.FeatureTypeArea:
+				// another version of an area over paths: the upper world must be valid on its own, so it
+				// gets unchanged copies of the area's paths and of their points
+				ok := len(f.Polys) > 0
+				var bring []wm.FeatureS
+				for _, poly := range f.Polys {
+					ok = ok && len(poly.Paths) > 0 && len(poly.Loops) == 0
+					for _, pid := range poly.Paths {
+						path, found := byID[pid.ID()]
+						ok = ok && found
+						for _, e := range path.Path {
+							if e.Ref == nil {
+								continue
+							}
+							if pt, found := byID[e.Ref.ID()]; found {
+								bring = append(bring, pt.Clone())
+							} else {
+								ok = false
+							}
+						}
+						if found {
+							bring = append(bring, path.Clone())
+						}
+					}
+				}
+				for _, b := range bring {
+					ok = ok && !used[b.ID.ID()] // a version of it is already in the upper layer: leave the area alone
+				}
+				if ok && !used[f.ID.ID()] {
+					seen := map[b6.FeatureID]bool{}
+					for _, b := range bring {
+						if !seen[b.ID.ID()] {
+							seen[b.ID.ID()] = true
+							add(b)
+						}
+					}
+					f.Tags = genTags(t, "shadowtags")
+					add(f)
+				}
 			case b6.FeatureTypePath:
 				// the upper world must be valid on its own: bring unchanged copies of the path's points
 				if n := len(f.Path); n > 2 && f.Path[0].Ref != nil && f.Path[n-1].Ref != nil && *f.Path[0].Ref == *f.Path[n-1].Ref {
@@ -155,9 +206,37 @@ func check(c Case) vlib.Outcome {
 		return vlib.Outcome{Skip: true, Classes: []string{"skipped:base-not-valid"}}
 	}
 	var w b6.World
+	viaTags := false
 	if c.UpperKind == "mutable-overlay" {
 		o := ingest.NewMutableOverlayWorld(base)
+		inBase := map[b6.FeatureID]wm.FeatureS{}
+		for _, f := range c.Base.Features {
+			inBase[f.ID.ID()] = f
+		}
 		for _, f := range wm.SortForInsertion(c.Upper) {
+			if old, ok := inBase[f.ID.ID()]; ok && c.ViaTags {
+				a, b := old.Clone(), f.Clone()
+				a.Tags, b.Tags = nil, nil
+				ja, _ := json.Marshal(a)
+				jb, _ := json.Marshal(b)
+				if string(ja) == string(jb) {
+					// the same feature with other tags: edit the tags in place
+					for _, t := range old.Tags {
+						if _, keep := tagMap(f.Tags)[t.K]; !keep {
+							if err := o.RemoveTag(f.ID.ID(), t.K); err != nil {
+								return vlib.Fail("RemoveTag(%v, %s): %v", f.ID.ID(), t.K, err)
+							}
+						}
+					}
+					for _, t := range f.Tags {
+						if err := o.AddTag(f.ID.ID(), b6.Tag{Key: t.K, Value: b6.NewStringExpression(t.V)}); err != nil {
+							return vlib.Fail("AddTag(%v, %s): %v", f.ID.ID(), t.K, err)
+						}
+					}
+					viaTags = true
+					continue
+				}
+			}
 			if err := o.AddFeature(wm.ToIngest(f)); err != nil {
 				return vlib.Outcome{Skip: true, Classes: []string{"skipped:upper-rejected"}}
 			}
@@ -236,6 +315,77 @@ func check(c Case) vlib.Outcome {
 			return vlib.Fail("%s: EachFeature yields %v %d times", what, id, seen[id])
 		}
 	}
+	// areas by point: each area once, in its upper-most version
+	shadowedArea := false
+	for _, f := range c.Upper {
+		if _, inBase := func() (wm.FeatureS, bool) {
+			for _, b := range c.Base.Features {
+				if b.ID.ID() == f.ID.ID() {
+					return b, true
+				}
+			}
+			return wm.FeatureS{}, false
+		}(); inBase && f.ID.ID().Type == b6.FeatureTypeArea {
+			shadowedArea = true
+		}
+	}
+	for _, id := range sorted {
+		if id.Type != b6.FeatureTypePoint {
+			continue
+		}
+		want := map[string]string{}
+		for _, aid := range sorted {
+			a := model[aid]
+			if aid.Type != b6.FeatureTypeArea {
+				continue
+			}
+			for _, poly := range a.Polys {
+				for _, pid := range poly.Paths {
+					for _, e := range model[pid.ID()].Path {
+						if e.Ref != nil && e.Ref.ID() == id {
+							want[aid.String()] = render(tagMap(a.Tags))
+						}
+					}
+				}
+			}
+		}
+		got := map[string]string{}
+		as := w.FindAreasByPoint(id)
+		n := 0
+		for as.Next() {
+			n++
+			got[as.FeatureID().String()] = render(nonGeometry(as.Feature().AllTags()))
+		}
+		if render(got) != render(want) || n != len(got) {
+			return vlib.Fail("%s: FindAreasByPoint(%v) returns %d areas %s; the upper-most versions of the areas over that point are %s", what, id, n, render(got), render(want))
+		}
+	}
+	// traversal: the paths leaving a point are the upper-most versions of the paths through it
+	// (only the set of paths is compared: where a path is split into segments is not this property)
+	for _, id := range sorted {
+		if id.Type != b6.FeatureTypePoint {
+			continue
+		}
+		want := map[string]string{}
+		for _, pid := range sorted {
+			if pid.Type != b6.FeatureTypePath || len(model[pid].Path) < 2 {
+				continue
+			}
+			for _, e := range model[pid].Path {
+				if e.Ref != nil && e.Ref.ID() == id {
+					want[pid.String()] = ""
+				}
+			}
+		}
+		got := map[string]string{}
+		ss := w.Traverse(id)
+		for ss.Next() {
+			got[ss.Segment().Feature.FeatureID().String()] = ""
+		}
+		if render(got) != render(want) {
+			return vlib.Fail("%s: Traverse(%v) leaves along paths %s; the paths through that point are %s", what, id, render(got), render(want))
+		}
+	}
 	// searches
 	for _, k := range keys {
 		if k == "name" {
@@ -271,11 +421,18 @@ func check(c Case) vlib.Outcome {
 			}
 		}
 	}
-	return vlib.Outcome{NonTrivial: shadowedDiffers, Classes: []string{"upper=" + c.UpperKind, "base=" + c.BaseKind}}
+	out := vlib.Outcome{NonTrivial: shadowedDiffers, Classes: []string{"upper=" + c.UpperKind, "base=" + c.BaseKind}}
+	if shadowedArea {
+		out.Classes = append(out.Classes, "shadowed-area")
+	}
+	if viaTags {
+		out.Classes = append(out.Classes, "version-made-by-tag-edits")
+	}
+	return out
 }
 
 func TestProp(t *testing.T) {
 	vlib.Run(t, vlib.Config{ID: "C16", Name: "overlay-shadowing", CaseTimeout: 120e9,
-		Rule: "a generated valid base (basic, BasicMutableWorld or compact) and an upper layer of 1-6 features: new points, and other versions of base points (other tags, optionally moved), relations (other tags) and open paths (other tags, with copies of their points); layered with ingest.NewOverlayWorld over an upper world of any kind, or added to a MutableOverlayWorld over the base; oracle: union of the layers with upper precedence for lookup, existence, locations, enumeration (each ID once, upper version) and Keyed/Tagged searches (ordered, no duplicates, upper version decides and is returned); non-trivial = a shadowed ID whose two versions differ in tags or location"},
+		Rule: "a generated valid base (basic, BasicMutableWorld or compact) and an upper layer of 1-6 features: new points, and other versions of base points (other tags, optionally moved), relations (other tags), open paths (other tags, with copies of their points) and areas over paths (other tags, with copies of their paths and points); layered with ingest.NewOverlayWorld over an upper world of any kind, or added to a MutableOverlayWorld over the base (with AddFeature, or with RemoveTag/AddTag where a version differs only in tags); oracle: union of the layers with upper precedence for lookup, existence, locations, enumeration (each ID once, upper version), the areas over each point (each once, upper version), the set of paths Traverse leaves each point along, and Keyed/Tagged searches (ordered, no duplicates, upper version decides and is returned); non-trivial = a shadowed ID whose two versions differ in tags or location"},
 		gen, check)
 }
